@@ -71,6 +71,16 @@ def gen_inputs(ctx):
         for base in ("", "1", "abc", "1z"):
             for pos in range(len(base) + 1):
                 out.append(("B58Dec", T(base[:pos] + ch + base[pos:]), ("dec-bad", ch in LOOKALIKE)))
+    # white space and control characters (what an input line carries along, what a text pattern's '$' or a strip()
+    # tolerates, what a translation table maps to zero): in front, behind, inside, and IN PLACE of the zero digit '1'
+    CTRL = ["\n", "\r", "\r\n", " ", "\t", "\0", "\x0b", "\x0c", "\x1c", "\x1f", "\x7f", "\x85", "\u2028"]
+    for base in ("1", "11", "abc1", "1abc", "a1c", "z1", "2NEpo7TZRRrLZSi2U1", "abc"):
+        for c_ in CTRL:
+            cands = {base + c_, c_ + base, base[:1] + c_ + base[1:]}
+            cands |= {base[:j] + c_ + base[j + 1:] for j in range(len(base)) if base[j] == "1"}
+            cands.add(base[:-1] + c_)
+            for t in sorted(cands):
+                out.append(("B58Dec", T(t), ("dec-control-char", base.endswith("1"))))
     # non-ASCII look-alikes of alphabet characters (fullwidth, mathematical, case-mapped: KELVIN SIGN -> k ...)
     import unicodedata
     for base in ("abc", "1z", "Kk2", "sS9"):
@@ -95,9 +105,27 @@ def gen_inputs(ctx):
             valids.append(R.b58check_enc(body))
     valids.append(R.b58check_enc(b""))              # empty body, checksum only
     valids.append(R.b58check_enc(b"\x00\x00\x00"))
+    # valid strings that END in the zero digit '1' (searched: 1 in 58) - the place where a dropped, ignored or
+    # zero-mapped trailing character changes nothing in the number
+    found1 = 0
+    for t_ in range(4000):
+        body = bytes([rng.choice([0x00, 0x80, 0x05])]) + bytes(rng.randrange(256) for _ in range(rng.choice([20, 32, 33])))
+        e_ = R.b58check_enc(body)
+        if e_.endswith("1"):
+            valids.append(e_)
+            found1 += 1
+            if found1 >= (2 if q else 6):
+                break
+    ctx.notes["checked_strings_ending_in_zero_digit"] = found1
     alpha_plus = alpha + LOOKALIKE
     for s in valids:
         out.append(("B58DecCheck", T(s), ("chk-valid", len(s) > 40)))
+        for c_ in (CTRL if (not q or s.endswith("1")) else rng.sample(CTRL, 3) + ["\n"]):
+            cands = {s + c_, c_ + s, s[:-1] + c_, s[:len(s) // 2] + c_ + s[len(s) // 2:]}
+            ones = [j for j in range(len(s)) if s[j] == "1"]
+            cands |= {s[:j] + c_ + s[j + 1:] for j in (ones if not q else ones[:1] + ones[-2:])}
+            for t in sorted(cands):
+                out.append(("B58DecCheck", T(t), ("chk-control-char", s.endswith("1"), t.endswith(c_), t.startswith(c_))))
         positions = range(len(s))
         nsub = len(alpha_plus)
         full = (not q) and len(s) <= 40
